@@ -30,7 +30,7 @@ Definition avc_parse_seq_header (p : bytes) : res (bytes * bytes) :=
       let sps := firstn (N.to_nat sl) (skipn 13 p) in
       let rest := skipn (N.to_nat sl) (skipn 13 p) in
       if lenN p <? 16 + sl then Err err_short
-      else if negb (N.land (nth_or0 0 rest) 31 =? 1) then Err err_avc
+      else if negb (nth_or0 0 rest =? 1) then Err err_avc   (* numOfPictureParameterSets: a full byte (fix abf3370) *)
       else
         let pl := nth_or0 1 rest * 256 + nth_or0 2 rest in
         if lenN p <? 16 + sl + pl then Err err_short
@@ -68,7 +68,8 @@ Definition avc_parse_seq_header_list (p : bytes) : res (list bytes * list bytes)
         match r2 with
         | [] => Err err_bits
         | b2 :: r3 =>
-          let* (ppss, _) := read_ps_list (N.to_nat (N.land b2 31)) r3 in
+          (* numOfPictureParameterSets is a full byte (ISO/IEC 14496-15 5.2.4.1.1; fix abf3370); b2 < 256 *)
+          let* (ppss, _) := read_ps_list (N.to_nat b2) r3 in
           Ok (spss, ppss)
         end
       end
